@@ -190,6 +190,18 @@ impl Transports {
     pub const BOTH: Transports = Transports { tcp: true, http: true };
 }
 
+/// A loopback address that this process has not used recently. Every server incarnation listens on
+/// its own address out of 127.0.0.0/8: a closed listener leaves its port (and the connections it
+/// accepted) in TIME_WAIT for a minute, and tens of thousands of incarnations per minute on ONE address
+/// exhaust the ephemeral port range ("Failed to get the local address for TCP listener"). Ports are
+/// accounted per address, so a fresh address always has free ports.
+pub fn next_loopback() -> String {
+    static N: std::sync::atomic::AtomicU32 = std::sync::atomic::AtomicU32::new(0);
+    let n = N.fetch_add(1, Ordering::SeqCst);
+    let pid = std::process::id();
+    format!("127.{}.{}.{}", 1 + pid % 254, (n / 254 + pid / 254) % 256, 1 + n % 254)
+}
+
 impl Node {
     /// Starts an incarnation the way `main.rs` does (new, init, transports; the statistics warm-up
     /// call is left out: it only reads /proc),
@@ -236,14 +248,14 @@ impl Node {
         if tr.tcp {
             let shared = node.shared();
             let mut tcp = ServerConfig::default().tcp;
-            tcp.address = "127.0.0.1:0".to_string();
+            tcp.address = format!("{}:0", next_loopback());
             let addr = node.block_on(async move { server::tcp::tcp_server::start(tcp, shared).await });
             node.tcp_addr = Some(addr);
         }
         if tr.http {
             let shared = node.shared();
             let mut http = ServerConfig::default().http;
-            http.address = "127.0.0.1:0".to_string();
+            http.address = format!("{}:0", next_loopback());
             let addr =
                 node.block_on(async move { server::http::http_server::start(http, shared).await });
             node.http_addr = Some(addr);
